@@ -351,7 +351,7 @@ theorem Good.step (h : Good jid U NR c) (op : Op) (hop : OpOk U NR op) : Good ji
   | addUserHandlers =>
     refine fr (fun _ hi => ?_)
     refine Inv.addTimed ?_ .userTimed 1000 true (by simp) (fun e => by cases e)
-    exact hi.addHandler .userAll 0 none none none true (by simp) (fun s e _ => by cases e)
+    exact (hi.addHandler .userAll 0 none none none true (by simp) (fun s e _ => by cases e)).addIdHandlerUser _
 
 theorem Good.exec (ops : List Op) (hops : ∀ op ∈ ops, OpOk U NR op) (h : Good jid U NR c) :
     Good jid U NR (Conn.exec c ops) := by
